@@ -1367,7 +1367,7 @@ def explain_doc(hdr, ops, o, at):
 
 def run_traces(ctx, quick):
     rng = ctx.rng
-    ndoc, ncodec = (500, 1200) if quick else (6000, 20000)
+    ndoc, ncodec = (400, 800) if quick else (6000, 20000)
     traces, metas = [], []
     kinds = {"Files": 0, "License": 0, "api": 0, "parsed": 0}
     nedits = {}
